@@ -299,13 +299,12 @@ pub fn check_get_doc(ctx: &mut Ctx, doc: &[u8], all_eps: bool) {
         ctx.outcome("skipped:not-wellformed");
         return;
     };
-    if root.has_duplicate_keys() {
-        ctx.outcome("skipped:duplicate-keys");
-        return;
-    }
+    // (with duplicate member names the first member wins: the reference walker takes the first)
     ctx.nontrivial();
     let mut paths = refjson::all_paths(&root);
     paths.extend(perturbed_paths(&root));
+    let mut seen = std::collections::HashSet::new();
+    paths.retain(|p| seen.insert(path_str(p)));
     check_get_on_paths(ctx, doc, &root, &paths, all_eps);
 }
 
@@ -652,6 +651,13 @@ pub fn families_c10(tier: Tier) -> Vec<Family> {
     }
     v.push(Family::of_vec("block-edge-sweep", block_edge_docs(if q { 70 } else { 135 }), |d, ctx| check_get_doc(ctx, d, false)));
     v.push(Family::of_vec("number-shapes+spaced-empties", shape_docs(), |d, ctx| check_get_doc(ctx, d, false)));
+    {
+        // repeated member names (also with values of different kinds): the first member wins
+        let g = DocGen { leaves: gen::strs(&["1", "\"s\"", "[2]"]), keys: gen::strs(&["\"a\"", "\"b\""]), style: gen::COMPACT, allow_dup_keys: true };
+        let n = if q { 4 } else { 5 };
+        let docs: Vec<String> = g.docs(n).into_iter().filter(|d| refjson::parse_doc(d.as_bytes(), RMode::Decode).map(|r| r.has_duplicate_keys()).unwrap_or(false)).collect();
+        v.push(Family::of_vec(&format!("duplicate-names-docs<={n}nodes"), docs, |d, ctx| check_get_doc(ctx, d.as_bytes(), true)));
+    }
     {
         // every escape kind in values and keys; a string ending in a \u escape (also as the last
         // byte of the input)
